@@ -1,6 +1,62 @@
 ------------------------------- MODULE Values -------------------------------
-(* value normalisation, card text, divmod / rake - filled in by the C19 check *)
-EXTENDS Hands, TLC
-ValuesKinds == {}
-ValuesOK(k, it) == TRUE
+(***************************************************************************)
+(* C19: equivalent ways of writing chips and cards, the constructor's      *)
+(* refusals, and the arithmetic helpers.                                   *)
+(***************************************************************************)
+EXTENDS PokerKit
+
+(***************************************************************************)
+(* A chip layout for n players written as a single number, as a sequence   *)
+(* (shorter: padded with zeros, longer: cut) or as a mapping from position *)
+(* to amount where position -1 is the last player (the button), -2 the one *)
+(* before, ... and several keys naming the same seat add up.               *)
+(***************************************************************************)
+Clean(w, n) ==
+  CASE w.repr = "scalar" -> [i \in 1..n |-> w.v]
+    [] w.repr = "seq" -> [i \in 1..n |-> IF i <= Len(w.s) THEN w.s[i] ELSE 0]
+    [] w.repr = "map" -> [i \in 1..n |-> SumS([j \in DOMAIN w.keys |->
+                              IF (IF w.keys[j] >= 0 THEN w.keys[j] + 1 ELSE n + w.keys[j] + 1) = i THEN w.vals[j] ELSE 0])]
+MapInRange(w, n) == w.repr = "map" => \A j \in DOMAIN w.keys : w.keys[j] \in (0 - n)..(n - 1)
+
+ValuesKinds == {"clean", "layout", "cards", "divmod", "rake"}
+VRep(k, it, what) == PrintT(<<"MISMATCH", k, it.kind, what, it>>)
+
+CleanOK(k, it) ==
+  IF it.raised THEN VRep(k, it, "a documented form was refused")
+  ELSE it.got = Clean(it.w, it.n) \/ VRep(k, it, <<"spec", Clean(it.w, it.n)>>)
+
+\* one layout (explicit vectors) and what each way of writing it produced: the same state, or the same refusal
+LayoutOK(k, it) ==
+  LET C == [n |-> it.n, antes |-> it.antes, blinds |-> it.blinds, bringin |-> it.bringin, stacks0 |-> it.stacks, boards0 |-> 1,
+            streets |-> << [hole |-> <<FALSE, FALSE>>, minbet |-> it.minbet] >>]
+      ok == ValidConfig(C)
+  IN \A j \in DOMAIN it.results :
+        LET r == it.results[j] IN
+        IF ok THEN /\ ~r.raised \/ VRep(k, it, <<"a valid layout was refused, written as", r.how>>)
+                   /\ r.raised \/ (r.antes = it.antes /\ r.blinds = it.blinds /\ r.stacks = it.stacks)
+                         \/ VRep(k, it, <<"written as", r.how, "became", r.antes, r.blinds, r.stacks>>)
+        ELSE r.raised \/ VRep(k, it, <<"an invalid layout was accepted, written as", r.how>>)
+
+CardsOK(k, it) ==
+  IF it.valid THEN /\ ~it.raised \/ VRep(k, it, "a valid spelling was refused")
+                   /\ it.raised \/ it.got = it.cards \/ VRep(k, it, <<"parsed as", it.got>>)
+  ELSE it.raised \/ VRep(k, it, <<"an invalid spelling was accepted as", it.got>>)
+
+\* exact arithmetic on <<num, den>> pairs with a common denominator chosen by the harness: all values are integers here
+DivModOK(k, it) ==
+  IF it.integral THEN (it.q * it.d + it.r = it.a /\ it.r >= 0 /\ it.r < it.d) \/ VRep(k, it, "quotient * divisor + remainder # amount")
+  ELSE (it.qd = it.a /\ it.r = 0) \/ VRep(k, it, "exact division: quotient * divisor # amount")
+
+RakeOK(k, it) ==
+  LET want == Rake([rake |-> [num |-> it.pnum, den |-> it.pden, cap |-> it.cap, nfnd |-> FALSE]], [board |-> <<>>], it.amount) IN
+  /\ it.raked + it.unraked = it.amount \/ VRep(k, it, "raked + unraked # amount")
+  /\ (it.raked >= 0 /\ it.raked <= it.amount) \/ VRep(k, it, "raked part outside 0..amount")
+  /\ <<it.raked, it.unraked>> = want \/ VRep(k, it, <<"spec", want>>)
+
+ValuesOK(k, it) ==
+  CASE it.kind = "clean" -> CleanOK(k, it)
+    [] it.kind = "layout" -> LayoutOK(k, it)
+    [] it.kind = "cards" -> CardsOK(k, it)
+    [] it.kind = "divmod" -> DivModOK(k, it)
+    [] it.kind = "rake" -> RakeOK(k, it)
 =============================================================================
